@@ -1,5 +1,5 @@
 """registry — which rules decide which property (and with what configuration)."""
-from rules import codec, writer, iterator
+from rules import codec, writer, iterator, writer_abs
 
 RULES = {
     "R-PANIC-VINT": codec.r_panic_vint,
@@ -14,6 +14,11 @@ RULES = {
     "R-FLUSH-GUARD": writer.r_flush_guard,
     "R-FLUSH-API": writer.r_flush_api,
     "R-SHARED-MATCHER": writer.r_shared_matcher,
+    "R-WRITER-VALIDATES": writer_abs.r_writer_validates,
+    "R-WIDTH-TABLE": writer_abs.r_width_table,
+    "R-DEPRECATED-EQ": writer_abs.r_deprecated_eq,
+    "R-FULL-EQ": writer_abs.r_full_eq,
+    "R-ATOMIC": writer_abs.r_atomic,
     "R-SPEC-CONSIST": iterator.r_spec_consist,
     "R-PANIC-ITER": iterator.r_iter_panic,
     "R-STALE": iterator.r_stale,
@@ -25,6 +30,48 @@ RULES = {
 }
 
 PROPERTIES = {
+    "C11": {
+        "rules": ["R-SHARED-MATCHER", "R-WRITER-VALIDATES"],
+        "level": "other",
+        "explanation": "Who-may-call check for the single shared matcher plus abstract interpretation of the writer's entries per (data type, master "
+                       "form, options) class: the matcher is consulted before the first state mutation exactly for specified non-End tags, and a "
+                       "negative answer yields UnexpectedTag with no mutation.  That the matcher implements the declared-path semantics is not decided.",
+    },
+    "C09": {
+        "rules": ["R-FULL-EQ", "R-DEPRECATED-EQ", "R-WIDTH-TABLE", "R-DEST-OWNER"],
+        "level": "other",
+        "explanation": "Sibling-region comparison (Full arm vs Start/End arms), equal action traces of the deprecated and option-based unknown-size "
+                       "entries, the width dispatch tables read off resolved const-generic instantiations per width class, and write_all-only "
+                       "delivery.  Byte equality of two presentations as such is not decided.",
+    },
+    "C19": {
+        "rules": ["R-ATOMIC"],
+        "level": "other",
+        "explanation": "Abstract interpretation of every writer entry per configuration class with ghost tracking of the two state components: on "
+                       "each feasible path ending in a non-I/O error the buffer and the open-master stack are untouched or truncated back to their "
+                       "entry lengths after appends only.  Nested writes inside a Full master are summarised under assumption A-REC.",
+    },
+    "C04": {
+        "rules": ["R-STALE", "R-READ-NONEMPTY", "R-EOF-GENUINE"],
+        "level": "proof",
+        "explanation": "Abstract interpretation of next()/try_recover() from any invariant-satisfying state, for any Read implementation: every "
+                       "byte the parser looks at lies below buffered_byte_length (no stale data), read() is never handed an empty slice (so Ok(0) "
+                       "means end of stream), and UnexpectedEOF is only constructed after the source has returned Ok(0).  These are the mechanisms "
+                       "that make the result independent of chunking and capacity; equality of two runs as such is not decided.",
+    },
+    "C12": {
+        "rules": ["R-STALE", "R-EOF-GENUINE"],
+        "level": "proof",
+        "explanation": "As C04 for the truncation case: nothing beyond the bytes actually delivered is parsed or reported (including partial_data), and "
+                       "an end-of-file error is raised only when the source is exhausted.  'Exactly the complete prefix' per cut point is not decided.",
+    },
+    "C17": {
+        "rules": ["R-LIMIT"],
+        "level": "proof",
+        "explanation": "Abstract interpretation of next() with a configured limit Some(m): every allocation sized by stream data (buffer growth, to_vec, "
+                       "collect) is proved <= m, or <= the existing capacity, or <= the 16-byte look-ahead; size arithmetic in header validation cannot overflow. "
+                       "Measured peak heap is not decided.",
+    },
     "C14": {
         "rules": ["R-RECOVER"],
         "level": "proof",
